@@ -246,6 +246,14 @@ def render_file(case):
 def wrap_input(ln):
     if len(ln) <= COLS or ln.startswith(('TITL', 'REM')):
         return [ln[:COLS]] if ln.startswith(('TITL', 'REM')) else [ln]
+    if ' !' in ln:
+        # a continuation mark inside a '!' comment is not a continuation mark (C05): wrap the instruction only and
+        # keep the comment on the last physical line if it fits there
+        code, _, comment = ln.partition(' !')
+        res = wrap_input(code.rstrip())
+        if len(res[-1]) + 2 + len(comment) <= COLS and '=' not in comment:
+            res[-1] += ' !' + comment
+        return res
     toks = ln.split(' ')
     res, cur = [], ''
     for t in toks:
@@ -266,11 +274,31 @@ def write_and_read(shx, tmp):
     return p.read_text()
 
 
+def merge_cont(parts):
+    """token lists of the newline-separated parts of one item -> logical lines: a part whose last token ends in '='
+    is continued by the next part (a raw text item keeps the continuation lines of its instruction, C07)"""
+    out = []
+    cont = False
+    for part in parts:
+        part = list(part)
+        nxt = bool(part) and part[-1].endswith('=')
+        if nxt:
+            part[-1] = part[-1][:-1]
+            if not part[-1]:
+                part.pop()
+        if cont and out:
+            out[-1] = out[-1] + part
+        else:
+            out.append(part)
+        cont = nxt
+    return out
+
+
 def expected_items(shx):
     """the texts the writer is about to print: the items of the res list it does not skip (shelx.py write loop)"""
     items = []
     for num, line in enumerate(shx._reslist):
-        if num in shx.delete_on_write:
+        if num in shx.delete_on_write or (hasattr(shx, '_is_included') and shx._is_included(line)):
             continue
         if line == '':
             continue
@@ -462,7 +490,7 @@ def evaluate_files(ctx, cases):
             # 2. the lexer gives back the token sequence of every instruction
             exp = []
             for (tname, text), ir in zip(st['items'], items):
-                exp.extend(ir['parts'])
+                exp.extend(merge_cont(ir['parts']) if tname == 'str' else ir['parts'])
             if fr['logical'] is None:
                 ctx.fail('C06|file|dangling-continuation', 'the last physical line of the written file is flagged as continued', payload)
             elif fr['logical'][:-1] != exp or fr['logical'][-1] != []:
@@ -479,7 +507,7 @@ def evaluate_files(ctx, cases):
             lg = (fr['logical'] or [[]])[:-1]
             pos = 0
             for (tname, text), ir in zip(st['items'], items):
-                for part in ir['parts']:
+                for part in (merge_cont(ir['parts']) if tname == 'str' else ir['parts']):
                     bare = (not part) or part[0][0] in '0123456789.-=' or (part[0][0] == '+' and len(part[0]) > 1 and part[0][1] in '0123456789.')
                     if bare:
                         kind = 'empty-line' if not part else 'bare-number'
